@@ -1,6 +1,8 @@
 package nfs
 
 import (
+	"time"
+
 	"github.com/goose-lang/primitive/disk"
 
 	"github.com/mit-pdos/go-journal/buf"
@@ -10,6 +12,7 @@ import (
 	"github.com/mit-pdos/go-nfsd/dir"
 	"github.com/mit-pdos/go-nfsd/fstxn"
 	"github.com/mit-pdos/go-nfsd/inode"
+	"github.com/mit-pdos/go-nfsd/nfstypes"
 	"github.com/mit-pdos/go-nfsd/shrinker"
 	"github.com/mit-pdos/go-nfsd/super"
 	"github.com/mit-pdos/go-nfsd/util/stats"
@@ -20,6 +23,9 @@ type Nfs struct {
 	shrinkst *shrinker.ShrinkerSt
 	// support unstable writes
 	Unstable bool
+	// write verifier: differs between server instances, so that a client
+	// can tell that unstable data it has not committed may have been lost
+	verf nfstypes.Writeverf3
 	// statistics
 	stats [NUM_NFS_OPS]stats.Op
 }
@@ -44,11 +50,22 @@ func MakeNfs(d disk.Disk) *Nfs {
 		fsstate:  st,
 		shrinkst: shrinker.MkShrinkerSt(st),
 		Unstable: true,
+		verf:     mkWriteVerf(),
 	}
 	if i.Kind == 0 {
 		nfs.makeRootDir()
 	}
 	return nfs
+}
+
+// Any value that differs from one server instance to the next will do.
+func mkWriteVerf() nfstypes.Writeverf3 {
+	var v nfstypes.Writeverf3
+	n := uint64(time.Now().UnixNano())
+	for i := uint64(0); i < uint64(len(v)); i++ {
+		v[i] = byte(n >> (8 * i))
+	}
+	return v
 }
 
 func (nfs *Nfs) ShutdownNfs() {
